@@ -8,6 +8,7 @@ import (
 	"sync"
 
 	"github.com/deepteams/webp/internal/bitio"
+	"github.com/deepteams/webp/internal/verifhook"
 )
 
 // losslessDecoderPool caches Decoder structs between decode calls so that the
@@ -19,6 +20,7 @@ var losslessDecoderPool sync.Pool
 // are kept for reuse.
 func acquireDecoder() *Decoder {
 	if v := losslessDecoderPool.Get(); v != nil {
+		verifhook.Pool("lossless.decoderPool", true)
 		dec := v.(*Decoder)
 		dec.br = nil
 		dec.Width = 0
@@ -343,6 +345,7 @@ func argbToNRGBA(pixels []uint32, width, height int) *image.NRGBA {
 	stride := img.Stride
 
 	numWorkers := runtime.GOMAXPROCS(0)
+	numWorkers = verifhook.Workers("lossless.decode", numWorkers)
 	if numWorkers > 1 && width*height >= minPixelsForParallel {
 		rowsPerWorker := height / numWorkers
 		var wg sync.WaitGroup
